@@ -1,6 +1,7 @@
 import PicoVerif.Model.PicoGrammar
 import PicoVerif.Lemmas.PegCover
 import PicoVerif.Lemmas.PegFence
+import PicoVerif.Lemmas.PegFuel
 /-! C08 — the parser consumes its input token by token and builds the tree it denotes.
 
 The recursive-descent parser is modelled as grammar *data* (`Gram.gram`, a transcription of parser.py checked by
@@ -104,6 +105,19 @@ theorem shortif_extent (gram : Nat → G) (toks : Array Tok) (fuel : Nat) (g : G
     (h : run gram toks (fuel + 1) (.fence g) st = .ok (some (ts, st'))) :
     ∀ i ∈ leavesL ts, i < nextNewline toks st.pos :=
   Peg.fence_body_before_newline gram toks fuel g st ts st' h
+
+/-- **C08.fuel_independent** (every grammar): the interpreter's fuel is not part of the answer. Every error of an inner run is
+passed on unchanged, so a result that is not the fuel error was computed without any inner run reaching the limit, and every
+larger fuel gives the same result. (The harness never sees the fuel error from the model at the fuel it uses; this theorem
+says that the answers it does see are the answers for every larger fuel, too.) -/
+theorem fuel_independent (gram : Nat → G) (toks : Array Tok) (f f' : Nat) (h : f ≤ f') (g : G) (st : PSt)
+    (hne : run gram toks f g st ≠ .error .fuel) : run gram toks f' g st = run gram toks f g st :=
+  Peg.run_fuel_le gram toks f f' h g st hne
+
+/-- **C08.parse_fuel_independent**: picotool's parse of a token array does not depend on the fuel once it is not the fuel error. -/
+theorem parse_fuel_independent (toks : Array Tok) (f f' : Nat) (h : f ≤ f') (hne : parse toks f ≠ .error .fuel) :
+    parse toks f' = parse toks f :=
+  Peg.run_fuel_le Gram.gram toks f f' h _ _ hne
 
 /-- non-vacuity: `if (a) b=1 ⏎ c=2` parses, the short-if owns tokens 0..8 and the next statement follows it -/
 def demoToks : Array Tok := #[
